@@ -220,6 +220,8 @@ def render(doc, override=None):
     if kind == "region":
       for j, attrs in enumerate(nd["nested"], 1):
         se = et.SubElement(el, qn(NS_TT, "style"))
+        if nd.get("nrefs") and nd["nrefs"][j - 1]:
+          se.set("style", " ".join(nd["nrefs"][j - 1]))
         for p, v in attrs:
           se.set(style_qn(p), v)
         apply(se, ("nested", i, j))
